@@ -5,6 +5,8 @@
    are re-established against what the source says now. *)
 From Coq Require Import ZArith QArith Qminmax List Bool String Ascii PrimFloat.
 From V Require Import Generated.CalTrackTables Model.CalTrack Proofs.CalTrackProofs Proofs.CalTrackTableProofs.
+(* the comparison helpers of the correspondence are built (type-checked) together with the property *)
+From V Require Model.CalTrackRun.
 Import ListNotations.
 Local Open Scope string_scope.
 
